@@ -40,7 +40,10 @@ type Time time.Time
 func NewTimeFromTimeSinceGPSEpoch(sinceEpoch time.Duration) Time {
 	t := gpsEpochTime.Add(sinceEpoch)
 	for _, ls := range leapSecondsTable {
-		if ls.Time.Before(t) {
+		// ls.Time is the last UTC second before the leap second. The (so far
+		// corrected) time is past the inserted second when it is at least one
+		// second plus the leap second later.
+		if !t.Before(ls.Time.Add(time.Second + ls.Duration)) {
 			t = t.Add(-ls.Duration)
 		}
 	}
@@ -53,7 +56,9 @@ func NewTimeFromTimeSinceGPSEpoch(sinceEpoch time.Duration) Time {
 func (t Time) TimeSinceGPSEpoch() time.Duration {
 	var offset time.Duration
 	for _, ls := range leapSecondsTable {
-		if ls.Time.Before(time.Time(t)) {
+		// the leap second is inserted after ls.Time (23:59:59), it counts
+		// from the next UTC second on.
+		if !time.Time(t).Before(ls.Time.Add(time.Second)) {
 			offset += ls.Duration
 		}
 	}
